@@ -201,15 +201,19 @@ def oracle(case, out):
     if d["kind"] == 2:
         tl = ["plain", "native-tls", "rustls"][case[1]]
         if d["verdict"] == 3:
-            return "ws/%s: stalled — no byte relayed and no application step for 1.2 s (client done %d, server done %d)" % (
+            return "ws/%s: stalled — no byte relayed and no application step for 8 s (client done %d, server done %d)" % (
                 tl, d["cli"]["done"], d["srv"]["done"])
         if d["verdict"] == 4:
-            return "ws/%s: did not finish in 40 s" % tl
+            return "ws/%s: did not finish in 300 s" % tl
         msgs = ws_msgs(case)
         for nm, who in (("cli", "client"), ("srv", "server")):
             s = d[nm]
             if not s["hs"]:
                 return "ws/%s: %s handshake failed" % (tl, who)
+            if s["err"] == 4 and nm == "cli" and gen_c15.ws_mode(case) == 3:
+                return ("ws/%s: with the outgoing direction stalled (a fed message unflushed, the transport's send side full) the "
+                        "reader got a wrong / missing message after %d of %d (a message was dropped, duplicated or reordered)"
+                        % (tl, s["n_ok"], len(msgs)))
             if s["err"]:
                 return "ws/%s: %s failed at step %d" % (tl, who, s["err"])
         if gen_c15.ws_mode(case) == 3:
